@@ -92,7 +92,7 @@ DEFAULT = dict(
     infoCmp='ne', infoValue=0, statesetValues=[], unitForbidden=[], tsOrderExempt=[], metricTypes=[],
     histTypes=[], untyped='', summaryNegCmp='lt', nhStructCatchesKeyError=False, nhSkipsChecks=False,
     nhSuffixRecheck=False, tsCoerce=False, nanGuardsFloat=False, leNaNNumeric=False, tsOverflowFallback=False,
-    histSkipsNh=False)
+    histSkipsNh=False, tsFracStrict=False, remEscapeAware=False)
 
 
 def _emit(ok, v, whys):
@@ -149,6 +149,8 @@ def _emit(ok, v, whys):
                    ('tsOverflowFallback', "`try: return float(self) > other / except OverflowError: return self.sec > other` (and `<`)"),
                    ('histSkipsNh', "`if s.native_histogram is not None: continue` as the first statement of the loop of _check_histogram"),
                    ('nanGuardsFloat', "`isinstance(sample.value, float) and math.isnan(sample.value)`"),
+                   ('tsFracStrict', "_parse_timestamp, aaaa.bbbb form: `int(parts[1])` on the whole fraction and `-0.x` left to the float form"),
+                   ('remEscapeAware', "_parse_remaining_text: the in-quotes flag ignores a backslash-escaped double quote"),
                    ('leNaNNumeric', "`math.isnan(float(sample.labels.get('le', \"NaN\")))` instead of the spelling test `== \"NaN\"`")):
         out += '/-- %s -/\ndef %s : Bool := %s\n' % (doc, k, 'true' if v[k] else 'false')
     out += '/-- `re` classes of the running interpreter for str patterns: \\w, \\s, \\d (inclusive code point ranges) -/\n'
@@ -475,10 +477,40 @@ def generate(repo):
         else:
             raise Fail('le test changed: %s' % t)
 
+    def line_functions():
+        pt = find_func(tree, '_parse_timestamp')
+        inner = [n for n in ast.walk(pt) if isinstance(n, ast.Try) and any(ast.unparse(x).startswith('parts = ') for x in n.body)]
+        if len(inner) != 1:
+            raise Fail('_parse_timestamp: the aaaa.bbbb try block not found')
+        body_ = [ast.unparse(x) for x in inner[0].body]
+        old = ["parts = timestamp.split('.', 1)", "return Timestamp(int(parts[0]), int(parts[1][:9].ljust(9, '0')))"]
+        new = ["parts = timestamp.split('.', 1)", 'sec = int(parts[0])', 'int(parts[1])',
+               "if sec == 0 and parts[0].startswith('-'):\n    raise ValueError",
+               "return Timestamp(sec, int(parts[1][:9].ljust(9, '0')))"]
+        if body_ == new:
+            v['tsFracStrict'] = True
+        elif body_ == old:
+            v['tsFracStrict'] = False
+        else:
+            raise Fail('_parse_timestamp: aaaa.bbbb branch changed: %s' % ' / '.join(body_).replace('\n', ' '))
+        loops = [n for n in rem.body if isinstance(n, ast.For) and ast.unparse(n.target) == 'char']
+        if len(loops) != 1:
+            raise Fail('_parse_remaining_text: character loop not found')
+        head = [ast.unparse(x) for x in loops[0].body[:3]]
+        pre = [ast.unparse(x) for x in rem.body]
+        if (head[0] == "if char == '\"' and (not escaped):\n    in_quotes = not in_quotes"
+                and head[1] == "escaped = char == '\\\\' and (not escaped)" and head[2] == 'if in_quotes:\n    continue'
+                and 'escaped = False' in pre):
+            v['remEscapeAware'] = True
+        elif head[0] == "if char == '\"':\n    in_quotes = not in_quotes" and head[1] == 'if in_quotes:\n    continue':
+            v['remEscapeAware'] = False
+        else:
+            raise Fail('_parse_remaining_text: head of the character loop changed: %s' % ' / '.join(head).replace('\n', ' '))
+
     def metric_types():
         val = find_assign(core, 'METRIC_TYPES')
         v['metricTypes'] = _str_list(val, 'METRIC_TYPES')
 
-    for fn in (type_suffixes, suffix_checks, hist_ops, exemplar_limit, keywords, value_checks, eof_and_blank, metric_types, guards):
+    for fn in (type_suffixes, suffix_checks, hist_ops, exemplar_limit, keywords, value_checks, eof_and_blank, metric_types, guards, line_functions):
         site(fn)
     return _emit(not whys, v, whys)
